@@ -11,3 +11,446 @@ mod blaslike_traits;
 pub(crate) use blaslike_traits::*;
 mod blas;
 pub(crate) use self::blas::*;
+
+// ---------------------------------------------------------------------------
+// verification hooks (add-only, off unless feature `verif-hooks` is enabled)
+//
+// The whole dense module is crate-private.  This module runs its functions on
+// plain data (f64 only) so that an external harness can compare them with a
+// model.  Nothing here is used by the solver.
+#[cfg(feature = "verif-hooks")]
+pub mod verif_hooks_dense {
+    #![allow(non_snake_case)]
+    #![allow(missing_docs)]
+    #![allow(clippy::too_many_arguments)]
+    #![allow(clippy::type_complexity)]
+    use crate::algebra::*;
+
+    /// owned matrix on plain data: (nrows, ncols, column-major data)
+    pub type Mat = (usize, usize, Vec<f64>);
+
+    /// An operand on plain data.
+    ///
+    /// * `view = None`: an owned `Matrix::new((m, n), data)` (asserts `m * n == data.len()`)
+    /// * `view = Some((off, len))`: `BorrowedMatrixMut::from_slice_mut(&mut data[off..off + len], m, n)`
+    ///   (no check at all, as in borrowed.rs); `data` is the parent storage
+    /// * `shape`: `b'N'` the matrix itself, `b'T'` its `t()` view, `b'S'` its `sym()` view
+    #[derive(Clone, Debug)]
+    pub struct Opnd {
+        pub m: usize,
+        pub n: usize,
+        pub data: Vec<f64>,
+        pub view: Option<(usize, usize)>,
+        pub shape: u8,
+    }
+
+    fn mk(a: &Mat) -> Matrix<f64> {
+        Matrix::<f64>::new((a.0, a.1), a.2.clone())
+    }
+    fn un(M: Matrix<f64>) -> Mat {
+        (M.size.0, M.size.1, M.data)
+    }
+
+    // storage dispatch, read only use
+    macro_rules! with_storage {
+        ($op:expr, |$M:ident| $body:expr) => {{
+            let op__: &Opnd = $op;
+            match op__.view {
+                None => {
+                    #[allow(unused_mut)]
+                    let mut $M = Matrix::<f64>::new((op__.m, op__.n), op__.data.clone());
+                    $body
+                }
+                Some((off__, len__)) => {
+                    let mut buf__ = op__.data.clone();
+                    #[allow(unused_mut)]
+                    let mut $M = BorrowedMatrixMut::<f64>::from_slice_mut(
+                        &mut buf__[off__..off__ + len__],
+                        op__.m,
+                        op__.n,
+                    );
+                    $body
+                }
+            }
+        }};
+    }
+    // storage + N / T / S view dispatch
+    macro_rules! with_view {
+        ($op:expr, |$A:ident| $body:expr) => {{
+            let opv__: &Opnd = $op;
+            let shape__ = opv__.shape;
+            with_storage!(opv__, |Mv__| match shape__ {
+                b'T' => {
+                    let $A = &Mv__.t();
+                    $body
+                }
+                b'S' => {
+                    let $A = &Mv__.sym();
+                    $body
+                }
+                _ => {
+                    let $A = &Mv__;
+                    $body
+                }
+            })
+        }};
+    }
+    // mutable receiver: returns (value of body, parent storage afterwards)
+    macro_rules! with_recv {
+        ($op:expr, |$M:ident| $body:expr) => {{
+            let opr__: &Opnd = $op;
+            match opr__.view {
+                None => {
+                    let mut $M = Matrix::<f64>::new((opr__.m, opr__.n), opr__.data.clone());
+                    let r__ = $body;
+                    (r__, $M.data)
+                }
+                Some((off__, len__)) => {
+                    let mut bufr__ = opr__.data.clone();
+                    let r__ = {
+                        let mut $M = BorrowedMatrixMut::<f64>::from_slice_mut(
+                            &mut bufr__[off__..off__ + len__],
+                            opr__.m,
+                            opr__.n,
+                        );
+                        $body
+                    };
+                    (r__, bufr__)
+                }
+            }
+        }};
+    }
+
+    // ---- core.rs / borrowed.rs / types.rs
+
+    pub fn new(m: usize, n: usize, data: Vec<f64>) -> Mat {
+        un(Matrix::<f64>::new((m, n), data))
+    }
+    pub fn zeros(m: usize, n: usize) -> Mat {
+        un(Matrix::<f64>::zeros((m, n)))
+    }
+    pub fn identity(n: usize) -> Mat {
+        un(Matrix::<f64>::identity(n))
+    }
+    pub fn new_from_slice(m: usize, n: usize, src: &[f64]) -> Mat {
+        un(Matrix::<f64>::new_from_slice((m, n), src))
+    }
+    pub fn from_rows(rows: &[Vec<f64>]) -> Mat {
+        un(Matrix::<f64>::from(rows))
+    }
+    pub fn resize(a: &Mat, m2: usize, n2: usize) -> Mat {
+        let mut M = mk(a);
+        M.resize((m2, n2));
+        un(M)
+    }
+    /// `ShapedMatrix::{nrows, ncols, is_square}`, `shape() == T` of the view
+    pub fn size_shape(a: &Opnd) -> (usize, usize, bool, bool) {
+        with_view!(a, |A| (A.nrows(), A.ncols(), A.is_square(), A.shape() == MatrixShape::T))
+    }
+    pub fn index_linear(a: &Opnd, i: usize, j: usize) -> usize {
+        with_view!(a, |A| A.index_linear((i, j)))
+    }
+    pub fn index(a: &Opnd, i: usize, j: usize) -> f64 {
+        with_view!(a, |A| A[(i, j)])
+    }
+    pub fn index_mut_set(a: &Opnd, i: usize, j: usize, v: f64) -> Vec<f64> {
+        with_recv!(a, |M| {
+            M[(i, j)] = v;
+        })
+        .1
+    }
+    pub fn col_slice(a: &Opnd, col: usize) -> Vec<f64> {
+        with_storage!(a, |M| M.col_slice(col).to_vec())
+    }
+    /// writes `vals` through `col_slice_mut(col)` (entry by entry, up to the shorter length)
+    pub fn col_slice_mut_set(a: &Opnd, col: usize, vals: &[f64]) -> Vec<f64> {
+        with_recv!(a, |M| {
+            for (d, s) in M.col_slice_mut(col).iter_mut().zip(vals) {
+                *d = *s;
+            }
+        })
+        .1
+    }
+    /// immutable `BorrowedMatrix::from_slice` + index
+    pub fn borrowed_index(data: &[f64], m: usize, n: usize, i: usize, j: usize) -> f64 {
+        BorrowedMatrix::<f64>::from_slice(data, m, n)[(i, j)]
+    }
+    pub fn borrowed_col_slice(data: &[f64], m: usize, n: usize, col: usize) -> Vec<f64> {
+        BorrowedMatrix::<f64>::from_slice(data, m, n).col_slice(col).to_vec()
+    }
+    pub fn set_identity(a: &Opnd) -> Vec<f64> {
+        with_recv!(a, |M| M.set_identity()).1
+    }
+    pub fn copy_from_slice(a: &Opnd, src: &[f64]) -> Vec<f64> {
+        with_recv!(a, |M| M.copy_from_slice(src)).1
+    }
+    pub fn is_triu(a: &Opnd) -> bool {
+        with_storage!(a, |M| M.is_triu())
+    }
+    pub fn subsasgn(a: &Opnd, rows: &[usize], cols: &[usize], src: &Opnd) -> Vec<f64> {
+        with_recv!(a, |M| with_view!(src, |S| M.subsasgn(rows, cols, S))).1
+    }
+    pub fn subsref(a: &Opnd, src: &Opnd, rows: &[usize], cols: &[usize]) -> Vec<f64> {
+        with_recv!(a, |M| with_view!(src, |S| M.subsref(S, rows, cols))).1
+    }
+    pub fn pack_triu(a: &Mat, v0: &[f64]) -> Vec<f64> {
+        let M = mk(a);
+        let mut v = v0.to_vec();
+        M.sym().pack_triu(&mut v);
+        v
+    }
+    /// `MatrixTriangle::{as_blas_char, t}` and `MatrixShape::{as_blas_char, t}`
+    pub fn type_markers(triu: bool, transposed: bool) -> (u8, u8, u8, u8) {
+        let tri = if triu { MatrixTriangle::Triu } else { MatrixTriangle::Tril };
+        let shp = if transposed { MatrixShape::T } else { MatrixShape::N };
+        (tri.as_blas_char(), tri.t().as_blas_char(), shp.as_blas_char(), shp.t().as_blas_char())
+    }
+
+    // ---- block_concatenate.rs
+
+    fn cat(r: Result<Matrix<f64>, MatrixConcatenationError>) -> Result<Mat, String> {
+        r.map(un).map_err(|e| format!("{:?}", e))
+    }
+    pub fn hcat(a: &Mat, b: &Mat) -> Result<Mat, String> {
+        cat(Matrix::<f64>::hcat(&mk(a), &mk(b)))
+    }
+    pub fn vcat(a: &Mat, b: &Mat) -> Result<Mat, String> {
+        cat(Matrix::<f64>::vcat(&mk(a), &mk(b)))
+    }
+    pub fn hvcat(blocks: &[Vec<Mat>]) -> Result<Mat, String> {
+        let mats: Vec<Vec<Matrix<f64>>> = blocks.iter().map(|r| r.iter().map(mk).collect()).collect();
+        let refs: Vec<Vec<&Matrix<f64>>> = mats.iter().map(|r| r.iter().collect()).collect();
+        let rows: Vec<&[&Matrix<f64>]> = refs.iter().map(|r| r.as_slice()).collect();
+        cat(Matrix::<f64>::hvcat(&rows))
+    }
+    pub fn blockdiag(blocks: &[Mat]) -> Result<Mat, String> {
+        let mats: Vec<Matrix<f64>> = blocks.iter().map(mk).collect();
+        let refs: Vec<&Matrix<f64>> = mats.iter().collect();
+        cat(Matrix::<f64>::blockdiag(&refs))
+    }
+
+    // ---- kron.rs
+
+    pub fn kron(k: &Mat, a: &Opnd, b: &Opnd) -> Vec<f64> {
+        let mut K = mk(k);
+        with_view!(a, |A| with_view!(b, |B| K.kron(A, B)));
+        K.data
+    }
+
+    // ---- matrix_math.rs
+
+    macro_rules! reduce_hook {
+        ($name:ident) => {
+            pub fn $name(a: &Mat, v0: &[f64]) -> Vec<f64> {
+                let M = mk(a);
+                let mut v = v0.to_vec();
+                M.$name(&mut v);
+                v
+            }
+        };
+    }
+    reduce_hook!(col_sums);
+    reduce_hook!(row_sums);
+    reduce_hook!(col_norms);
+    reduce_hook!(col_norms_no_reset);
+    reduce_hook!(col_norms_sym);
+    reduce_hook!(col_norms_sym_no_reset);
+    reduce_hook!(row_norms);
+    reduce_hook!(row_norms_no_reset);
+
+    pub fn quad_form(a: &Mat, y: &[f64], x: &[f64]) -> f64 {
+        mk(a).quad_form(y, x)
+    }
+    pub fn scale(a: &Mat, c: f64) -> Vec<f64> {
+        let mut M = mk(a);
+        M.scale(c);
+        M.data
+    }
+    pub fn negate(a: &Mat) -> Vec<f64> {
+        let mut M = mk(a);
+        M.negate();
+        M.data
+    }
+    pub fn lscale(a: &Mat, l: &[f64]) -> Vec<f64> {
+        let mut M = mk(a);
+        M.lscale(l);
+        M.data
+    }
+    pub fn rscale(a: &Mat, r: &[f64]) -> Vec<f64> {
+        let mut M = mk(a);
+        M.rscale(r);
+        M.data
+    }
+    pub fn lrscale(a: &Mat, l: &[f64], r: &[f64]) -> Vec<f64> {
+        let mut M = mk(a);
+        M.lrscale(l, r);
+        M.data
+    }
+    pub fn symmetric_part(a: &Opnd) -> Vec<f64> {
+        with_recv!(a, |M| {
+            M.symmetric_part();
+        })
+        .1
+    }
+    pub fn svec_to_mat(a: &Opnd, x: &[f64]) -> Vec<f64> {
+        with_recv!(a, |M| crate::algebra::svec_to_mat(&mut M, x)).1
+    }
+    pub fn mat_to_svec(x0: &[f64], a: &Opnd) -> Vec<f64> {
+        let mut x = x0.to_vec();
+        with_view!(a, |A| crate::algebra::mat_to_svec(&mut x, A));
+        x
+    }
+
+    // ---- blas: gemm / gemv / symv / syrk / syr2k
+
+    pub fn mul(c: &Opnd, a: &Opnd, b: &Opnd, alpha: f64, beta: f64) -> Vec<f64> {
+        with_recv!(c, |C| with_view!(a, |A| with_view!(b, |B| {
+            C.mul(A, B, alpha, beta);
+        })))
+        .1
+    }
+    /// `a.shape` must be `b'N'` or `b'T'` (gemv is not implemented for symmetric views)
+    pub fn gemv(a: &Opnd, x: &[f64], y0: &[f64], alpha: f64, beta: f64) -> Vec<f64> {
+        let mut y = y0.to_vec();
+        let t = a.shape == b'T';
+        with_storage!(a, |M| if t {
+            M.t().gemv(x, &mut y, alpha, beta)
+        } else {
+            M.gemv(x, &mut y, alpha, beta)
+        });
+        y
+    }
+    pub fn symv(a: &Mat, x: &[f64], y0: &[f64], alpha: f64, beta: f64) -> Vec<f64> {
+        let M = mk(a);
+        let mut y = y0.to_vec();
+        M.sym().symv(x, &mut y, alpha, beta);
+        y
+    }
+    pub fn syrk(c: &Mat, a: &Opnd, alpha: f64, beta: f64) -> Vec<f64> {
+        let mut C = mk(c);
+        with_view!(a, |A| C.syrk(A, alpha, beta));
+        C.data
+    }
+    /// `a`, `b`: storage only (`shape` is ignored)
+    pub fn syr2k(c: &Opnd, a: &Opnd, b: &Opnd, alpha: f64, beta: f64) -> Vec<f64> {
+        with_recv!(c, |C| with_storage!(a, |A| with_storage!(b, |B| C.syr2k(&A, &B, alpha, beta)))).1
+    }
+
+    // ---- lapack engines
+
+    fn res(r: Result<(), DenseFactorizationError>) -> Result<(), String> {
+        r.map_err(|e| format!("{:?}", e))
+    }
+
+    pub struct Chol(CholeskyEngine<f64>);
+    impl Chol {
+        pub fn new(n: usize) -> Self {
+            Chol(CholeskyEngine::<f64>::new(n))
+        }
+        /// an engine whose factor matrix is the given one
+        pub fn from_L(l: &Mat) -> Self {
+            Chol(CholeskyEngine::<f64> { L: mk(l) })
+        }
+        pub fn resize(&mut self, n: usize) {
+            self.0.resize(n)
+        }
+        pub fn L(&self) -> Mat {
+            un(self.0.L.clone())
+        }
+        /// returns the result and the (parent) storage of `a` afterwards
+        pub fn factor(&mut self, a: &Opnd) -> (Result<(), String>, Vec<f64>) {
+            let eng = &mut self.0;
+            with_recv!(a, |A| res(eng.factor(&mut A)))
+        }
+        pub fn solve(&mut self, b: &Opnd) -> Vec<f64> {
+            let eng = &mut self.0;
+            with_recv!(b, |B| eng.solve(&mut B)).1
+        }
+        pub fn logdet(&self) -> f64 {
+            self.0.logdet()
+        }
+    }
+
+    pub struct Svd(SVDEngine<f64>);
+    impl Svd {
+        pub fn new(m: usize, n: usize) -> Self {
+            Svd(SVDEngine::<f64>::new((m, n)))
+        }
+        pub fn resize(&mut self, m: usize, n: usize) {
+            self.0.resize((m, n))
+        }
+        pub fn set_qr(&mut self, qr: bool) {
+            self.0.algorithm = if qr {
+                SVDEngineAlgorithm::QRDecomposition
+            } else {
+                SVDEngineAlgorithm::DivideAndConquer
+            };
+        }
+        pub fn set_factors(&mut self, s: &[f64], u: &Mat, vt: &Mat) {
+            self.0.s = s.to_vec();
+            self.0.U = mk(u);
+            self.0.Vt = mk(vt);
+        }
+        pub fn factors(&self) -> (Vec<f64>, Mat, Mat) {
+            (self.0.s.clone(), un(self.0.U.clone()), un(self.0.Vt.clone()))
+        }
+        /// (work.len(), iwork.len())
+        pub fn work_lens(&self) -> (usize, usize) {
+            self.0.vh_work_lens()
+        }
+        pub fn factor(&mut self, a: &Opnd) -> (Result<(), String>, Vec<f64>) {
+            let eng = &mut self.0;
+            with_recv!(a, |A| res(eng.factor(&mut A)))
+        }
+        pub fn solve(&mut self, b: &Opnd) -> Vec<f64> {
+            let eng = &mut self.0;
+            with_recv!(b, |B| eng.solve(&mut B)).1
+        }
+    }
+
+    pub struct Eig(EigEngine<f64>);
+    impl Eig {
+        pub fn new(n: usize) -> Self {
+            Eig(EigEngine::<f64>::new(n))
+        }
+        pub fn eigvals(&mut self, a: &Opnd) -> (Result<(), String>, Vec<f64>) {
+            let eng = &mut self.0;
+            with_recv!(a, |A| res(eng.eigvals(&mut A)))
+        }
+        pub fn eigen(&mut self, a: &Opnd) -> (Result<(), String>, Vec<f64>) {
+            let eng = &mut self.0;
+            with_recv!(a, |A| res(eng.eigen(&mut A)))
+        }
+        pub fn lambda(&self) -> Vec<f64> {
+            self.0.λ.clone()
+        }
+        pub fn V(&self) -> Option<Mat> {
+            self.0.V.clone().map(un)
+        }
+        /// (isuppz.len(), work.len(), iwork.len())
+        pub fn work_lens(&self) -> (usize, usize, usize) {
+            self.0.vh_work_lens()
+        }
+    }
+
+    pub struct Lu(LuSolver);
+    impl Default for Lu {
+        fn default() -> Self {
+            Self::new()
+        }
+    }
+    impl Lu {
+        pub fn new() -> Self {
+            Lu(LuSolver::new())
+        }
+        /// returns the result, `A` and `B` afterwards
+        pub fn lusolve(&mut self, a: &Mat, b: &Mat) -> (Result<(), String>, Vec<f64>, Vec<f64>) {
+            let (mut A, mut B) = (mk(a), mk(b));
+            let r = res(self.0.lusolve(&mut A, &mut B));
+            (r, A.data, B.data)
+        }
+        pub fn ipiv(&self) -> Vec<i32> {
+            self.0.vh_ipiv()
+        }
+    }
+}
